@@ -6,7 +6,7 @@ PROP = {
     "allowed_axioms": [],
     "harness": "c05",
     "modelrun": {"name": "c05", "extracted": ["c05_model"], "driver": "ocaml/c05/c05_run.ml"},
-    "tiers": {"quick": {"cases": 6000}, "thorough": {"cases": 100000}},
+    "tiers": {"quick": {"cases": 6000}, "thorough": {"cases": 200000}},
     "search_cases": 30000,
     "rule": "histories of 4-28 operations (announce / withdraw id / withdraw all / flush / register / unregister / "
             "ReplaceFilterChain / VRF ASN and cluster-id changes) on one Adj-RIB-In with two Loc-RIB clients, 4 prefixes, "
